@@ -49,6 +49,9 @@ A_PY = [
     "class L(Base):\n    lattr = 1\n    def lm(self): ...",
     "w = 2",
     "_pw = 3",
+    # public by name, marked private by an extension (`:meta private:` in the docstring)
+    'def meta_hidden(a, b):\n    """Helper.\n\n    :meta private:\n    """',
+    'class MetaHidden:\n    """:meta private:"""\n    limit = 1',
 ]
 INIT_PY = ["from pkg.a import f as f", "from pkg.a import K", "from pkg._priv import helper", "from pkg._priv import pub_helper", '__all__ = ["f", "K", "VALUE", "Sub", "pub_helper"{EXTRA_ALL}]', "VALUE = 1", "class Sub(K):\n    pass"]
 # a module that exports nothing (`__all__ = []`): all of it is private, whatever the names look like
@@ -72,7 +75,7 @@ PUBLIC = {
     "pkg.a.f@definition": {"pkg.a.f"}, "pkg.a.Base.bm@definition": {"pkg.a.Base.bm"},
     "pkg.a.Base": {"pkg.a.Base"}, "pkg.a._PB.pbm": {"pkg.a.Base.pbm", "pkg.a.K.pbm", "pkg.K.pbm", "pkg.Sub.pbm", "pkg.a.L.pbm"}, "pkg.a.w": {"pkg.a.w"}, "pkg.VALUE": {"pkg.VALUE"}, "pkg.Sub": {"pkg.Sub"}, "pkg.a.Base.battr": {"pkg.a.Base.battr", "pkg.a.K.battr", "pkg.K.battr", "pkg.Sub.battr", "pkg.a.L.battr"},
 }
-PRIVATE_MARKERS = ("_g", "_pm", "_pw", "helper", "_priv", "_PB", "internal")
+PRIVATE_MARKERS = ("_g", "_pm", "_pw", "helper", "_priv", "_PB", "internal", "meta_hidden", "MetaHidden")
 
 
 def _sub(stmts, old, new):
@@ -105,6 +108,9 @@ def catalogue():
     edit("rekind-unexported-import-target", True, P, lambda s: _sub(s, "def helper(): ...", "helper = 1"))
     edit("add-to-init", True, I, lambda s: s + ["def init_new(): ..."])
     edit("change-overridden-attr-of-private-base", True, A, lambda s: _sub(s, "    shared = 1", "    shared = 9"))
+    edit("remove-object-marked-private-by-extension", True, A, lambda s: [x for x in s if not x.startswith("def meta_hidden")])
+    edit("change-params-of-object-marked-private-by-extension", True, A, lambda s: _sub(s, "def meta_hidden(a, b):", "def meta_hidden(a):"))
+    edit("change-value-in-class-marked-private-by-extension", True, A, lambda s: _sub(s, "    limit = 1", "    limit = 2"))
     B = "pkg/_base.py"
     edit("remove-unlisted-of-private-sibling", True, B, lambda s: [x for x in s if not x.startswith("def unlisted")])
     edit("remove-name-exported-through-assembled-all", False, None, lambda fs: {**fs, "pkg/_base.py": [x.replace('"bf", ', "") for x in fs["pkg/_base.py"] if not x.startswith("def bf")]}, ("pkg._base.bf", "removed", None))
@@ -205,8 +211,23 @@ def shards(tier):
     return [(v, i) for v in VARIANTS for i in range(NSHARDS // 3)]
 
 
+_EXT = {}
+
+
+def _extensions(griffe):
+    """An extension of the documented kind that marks objects private (`obj.public = False`) by a docstring convention: what it marks is private for the comparison too."""
+    if "ext" not in _EXT:
+        class MetaPrivate(griffe.Extension):
+            def on_instance(self, *, obj, **kwargs):  # noqa: ARG002
+                if obj.docstring and ":meta private:" in obj.docstring.value:
+                    obj.public = False
+
+        _EXT["ext"] = MetaPrivate
+    return griffe.load_extensions(_EXT["ext"]())
+
+
 def _load(griffe, root):
-    loader = griffe.GriffeLoader(search_paths=[root], allow_inspection=False)
+    loader = griffe.GriffeLoader(search_paths=[root], allow_inspection=False, extensions=_extensions(griffe))
     pkg = loader.load("pkg")
     loader.resolve_aliases(implicit=True, external=False)
     return pkg
@@ -300,7 +321,7 @@ def cli_check(griffe, old_files, new_files, expect_breaks, d):
         import io
 
         with contextlib.redirect_stdout(io.StringIO()), contextlib.redirect_stderr(io.StringIO()):
-            rc = cli.check("pkg", against="v0")  # cwd is the repository root: both versions are found relative to their checkout
+            rc = cli.check("pkg", against="v0", extensions=[_EXT["ext"]] if _EXT else None)  # cwd is the repository root: both versions are found relative to their checkout
     finally:
         os.chdir(cwd)
     return rc
